@@ -87,6 +87,36 @@ def die_iter(ctx, o, take):
     yield from drain(cu.iter_DIEs, take)
 
 
+def _where(d):
+    """Identity of an entry for navigation answers: (is it an entry of the main file's DWARF?, unit offset, entry offset)."""
+    if d is None:
+        return None
+    return ('die-at', d.cu.cu_offset, d.offset, d.tag)
+
+
+@op('die_iter_held')
+def die_iter_held(ctx, o, take, nav, between=None):
+    """The entries a walk of unit o yields are kept by the caller; after the walk (and whatever other callers did meanwhile)
+    each kept entry is asked for its parent - entries spliced in from a supplementary file included."""
+    ok, dw, cu = yield from _cu(ctx, o)
+    if not ok:
+        return
+    held = []
+
+    def keep(d):
+        held.append(d)
+        return canon(d)
+    yield from drain(cu.iter_DIEs, take, conv=keep)
+    yield ('WALKED',)
+    for inner in between or ():
+        # what the same caller does between its walk and coming back to the entries it kept
+        yield from OPS[inner[0]](ctx, *inner[1:])
+    step = max(1, len(held) // nav)
+    spliced = [d for d in held if d.cu is not cu][:nav]         # entries of another unit (imported partial units) first
+    for d in spliced + [d for d in held[::step] if d.cu is cu][:nav]:
+        yield from one(d.get_parent, conv=_where)
+
+
 @op('die_at')
 def die_at(ctx, o, d):
     yield from _die(ctx, o, d)
